@@ -74,3 +74,15 @@ func specIsCompilerSyntaxError(x interface{}) bool {
 	_, ok := x.(*CompilerSyntaxError)
 	return ok
 }
+
+// specIsScriptError: a panic payload that denotes a script-visible exception (a thrown value, a
+// non-nil *Exception, or one of the internal error kinds that become error objects).
+func specIsScriptError(x interface{}) bool {
+	switch specThrownKind(x) {
+	case 1, 3:
+		return true
+	case 2:
+		return specThrownException(x) != nil
+	}
+	return false
+}
